@@ -325,3 +325,20 @@ PROPS["C16"] = {
          "thorough": {"checks": 40000, "shards": 2, "timeout": 1700}},
     ],
 }
+
+PROPS["C08"] = {
+    "title": "DPoS finality: the irreversible block is monotone, on-chain and never undone",
+    "level": "exploration",
+    "technique": "schedule-generating PBT (rapid) over several real nodes (chain service + real DPoS status) in one process: production, delayed / reordered / lost delivery, equivocation within the fault budget, restarts; history invariants per node and across nodes",
+    "level_text": ("n = 1..4 producers, each running a real node; 4-36 slots; per slot the owner (asked from the real slot arithmetic) produces a signed empty block on its own best block with Confirms computed by the block factory's rule, skips, or (n = 4 only, one faulty producer) also signs a second block on another parent; "
+                   "each block reaches each other node now, 1-5 slots later or never; nodes restart at drawn slots. After every delivery: the node's LIB did not decrease, is the main-chain block at its height, is followed up to the tip by blocks of at least 2n/3+1 distinct producers, no main-chain block at or below any LIB ever reported was replaced, "
+                   "blocks numbered at or below the LIB are refused, and the LIBs of every pair of nodes lie on one chain; after a restart the restored LIB equals the one reported before."),
+    "level_note": "Blocks are empty so that the execution layer's process-wide parameters are never written while several nodes share the process; producer elections (every 100 blocks) are out of range; the future-slot rule is avoided by placing the slots two hours in the past. The Confirms rule is re-implemented in the harness (trusted). 'Restored status equals the one recomputed from the stored blocks' is reported as a class only when a from-scratch replay differs (see DESIGN.md).",
+    "rule": ("a case = (n, schedule); non-trivial = the LIB advanced at least twice on some node and a fork (two tips, or an equivocation) or a restart occurred; distinct = distinct schedule."),
+    "assumptions": ["libp2p secp256k1 signatures", "sequential driving of the nodes with the DPoS boot loader switched per node"],
+    "units": [
+        {"pkg": "verifx/c08", "run": "^TestC08Finality$",
+         "quick": {"checks": 60, "shards": 12, "timeout": 500},
+         "thorough": {"checks": 1200, "shards": 16, "timeout": 1700}},
+    ],
+}
